@@ -51,6 +51,8 @@ type typeDecls struct {
 	skip      string // non-empty: the run's type graph cannot be declared faithfully (reason)
 	useUnsafe bool
 	freshAttr map[*VOpaque]map[string]*VOpaque
+	asIface   map[*VOpaque]string   // type declared as an interface with this marker method (target of an AssignableTo)
+	asImpl    map[*VOpaque][]string // marker methods a type implements (source of an AssignableTo)
 }
 
 func (td *typeDecls) freshName() string {
@@ -126,6 +128,28 @@ func (td *typeDecls) index() {
 		args := splitTop(strings.TrimSuffix(strings.TrimPrefix(d.Sym, pre), ")"))
 		if len(args) != 2 {
 			continue
+		}
+		if pre == "B:types.AssignableTo(" {
+			// assignability is directional: when the run learnt nothing else about the two types, the target is declared
+			// as an interface the source implements, so that a value can flow only from the first to the second
+			directional := false
+			for _, pair := range td.matchOrigins(args[0], args[1]) {
+				x, y := td.find(pair[0]), td.find(pair[1])
+				if x != y && opaqueInfo(x) == 0 && opaqueInfo(y) == 0 && td.asIface[x] == "" && len(td.asImpl[y]) == 0 {
+					if td.asIface == nil {
+						td.asIface = map[*VOpaque]string{}
+						td.asImpl = map[*VOpaque][]string{}
+					}
+					if td.asIface[y] == "" {
+						td.asIface[y] = fmt.Sprintf("is%d", len(td.asIface))
+					}
+					td.asImpl[x] = append(td.asImpl[x], td.asIface[y])
+					directional = true
+				}
+			}
+			if directional {
+				continue
+			}
 		}
 		for _, pair := range td.matchOrigins(args[0], args[1]) {
 			a, b := td.find(pair[0]), td.find(pair[1])
@@ -587,8 +611,14 @@ func (td *typeDecls) declare(name string, o *VOpaque, depth int) {
 		case td.predTrue("nullable", o):
 			emit(fmt.Sprintf("*struct{ _%s int }", strings.TrimLeft(name, "_")))
 			methodsOK = false
+		case td.asIface[o] != "":
+			td.decls = append(td.decls, fmt.Sprintf("type %s interface{ %s() }", name, td.asIface[o]))
+			methodsOK = false
 		default:
 			emit(fmt.Sprintf("struct{ _%s int }", strings.TrimLeft(name, "_")))
+			for _, m := range td.asImpl[o] {
+				td.decls = append(td.decls, fmt.Sprintf("func (%s) %s() {}", name, m))
+			}
 		}
 	}
 	// methods the run's predicates found on this (named) type
